@@ -437,3 +437,30 @@ package metrics
 //@   ensures [the-range-never-shrinks] ms.lowTS <= old(ms.lowTS) && ms.highTS >= old(ms.highTS)
 //@   ensures [the-range-grows-only-as-far-as-the-sample] (ms.lowTS == old(ms.lowTS) || ms.lowTS == ts) && (ms.highTS == old(ms.highTS) || ms.highTS == ts)
 //@ end
+
+// C10 (restart replays the metric names whose append had completed): the names
+// read from a segment's name WAL are written into <segment dir>/<seg>.mnm; a
+// segment that crashed before its first block flush has no directory yet, so
+// the directory is created before the names are flushed (the WAL files are
+// already deleted at that point: a failed flush would lose the names).
+// Ghost mnmDirMade: MkdirAll of this segment's directory ran in this iteration.
+//@ ghostdecl mnmDirMade int
+//@ func RecoverMNameWALData
+//@   props C10
+//@   assumecalleerequires
+//@   ghostinit ghost(0, "mnmDirMade") == 0
+//@   site callret initSegment #1:
+//@     ghostset ghost(0, "mnmDirMade") = 0
+//@   site call os.MkdirAll #1:
+//@     assert [the-directory-made-is-the-segments-own] arg0 == ms.metricsKeyBase
+//@   site callret os.MkdirAll #1:
+//@     ghostset ghost(0, "mnmDirMade") = 1
+//@   site call ms.FlushMetricNames #1:
+//@     assert [names-are-flushed-into-a-directory-that-was-just-made-to-exist] ghost(0, "mnmDirMade") == 1
+//@   loop 1:
+//@     invariant true
+//@   loop 2:
+//@     invariant true
+//@   loop 3:
+//@     invariant true
+//@ end
